@@ -13,7 +13,8 @@ RULE = ("two modes. ENUMERATED: for each of N fixed systems (quick 6, thorough 2
         "ring; 1-4 molecules; half of them with pre-positioned residues from an earlier build; -nr 1..5, -mi 0..2) ALL "
         "success/failure tapes in {ok,fail}^L for the first L placement-step decisions (quick L=8: 256, thorough L=12: 4096) "
         "and ALL tapes in {ok,fail}^6 for whole attempts (an attempt marked fail has every step fail from its half-way point "
-        "until it is abandoned), after which faults stop. SAMPLED: long bursty tapes (step fails, exhausted steps, rejected "
+        "until it is abandoned), ALL ternary tapes {ok, fail, every-candidate-rejected}^5 (thorough ^7: the organic route into "
+        "the rewind) and ALL start-rejection tapes {ok,reject}^5, after which faults stop. SAMPLED: long bursty tapes (step fails, exhausted steps, rejected "
         "starts, rejected candidates) on larger systems. Invariants at the event where they can first fail: grown-from "
         "positioned neighbour, positioned generated residues == growth-order prefix, clean state and supplied residues intact "
         "after every failed attempt, no double add, accepted molecules untouched, final state positioned exactly once (runs that "
@@ -21,7 +22,8 @@ RULE = ("two modes. ENUMERATED: for each of N fixed systems (quick 6, thorough 2
         "(schedule signature, event-log digest). Exhaustive over tapes of length L for the chosen systems, not over systems")
 ASSUMPTIONS = wa.ASSUMPTIONS
 REAL_VS_STUB = wa.REAL_VS_STUB
-PROBES = wa.PROBES + ["interior_kept_residues", "start_option", "cycles_option", "supplied_and_generated_in_one_system", "enumerated_step_tape", "enumerated_attempt_tape"]
+PROBES = wa.PROBES + ["interior_kept_residues", "start_option", "cycles_option", "supplied_and_generated_in_one_system", "enumerated_step_tape", "enumerated_attempt_tape",
+                      "enumerated_ternary_step_tape", "enumerated_start_tape"]
 SYS_PROFILE = {"shapes": ["linear", "linear", "star", "comb", "ring", "tree"], "maxres": 8, "max_molecules": 4,
                "max_count": 2, "n_entries": (1, 2), "box_modes": ["cubic", "noncubic"], "vsites": False,
                "max_atoms": 2, "density": 0, "nrewind": [1, 2, 3, 4, 5], "maxiter": [0, 1, 2], "p_mi": 1.0,
@@ -33,8 +35,12 @@ SAMPLED_PROFILE = {"shapes": ["linear", "linear", "star", "comb", "ring", "tree"
 _SYS_CACHE = {}
 
 
+L3 = {"quick": 5, "thorough": 7}          # ternary step tapes {ok, fail, all-candidates-rejected}^L3
+LSTART = 5                                  # binary start-rejection tapes
+
+
 def _per(tier):
-    return 2 ** LSTEP[tier] + 2 ** MATT
+    return 2 ** LSTEP[tier] + 2 ** MATT + 3 ** L3[tier] + 2 ** LSTART
 
 
 def n_runs(tier):
@@ -85,10 +91,22 @@ def gen_job(verif_seed, tier, index):
     if k < 2 ** L:
         job["tape"] = {"step": [(k >> b) & 1 for b in range(L)]}
         job["mode"] = "enum_step"
-    else:
+    elif k < 2 ** L + 2 ** MATT:
         k -= 2 ** L
         job["tape"] = {"attempt": [(k >> b) & 1 for b in range(MATT)]}
         job["mode"] = "enum_attempt"
+    elif k < 2 ** L + 2 ** MATT + 3 ** L3[tier]:
+        k -= 2 ** L + 2 ** MATT
+        lane = []
+        for _ in range(L3[tier]):
+            k, d = divmod(k, 3)
+            lane.append(d)
+        job["tape"] = {"step": lane}
+        job["mode"] = "enum_step3"
+    else:
+        k -= 2 ** L + 2 ** MATT + 3 ** L3[tier]
+        job["tape"] = {"start": [(k >> b) & 1 for b in range(LSTART)]}
+        job["mode"] = "enum_start"
     job["system"] = s
     return job
 
@@ -98,6 +116,10 @@ def _tag(job, res):
         res["probes"]["enumerated_step_tape"] = 1
     elif job.get("mode") == "enum_attempt":
         res["probes"]["enumerated_attempt_tape"] = 1
+    elif job.get("mode") == "enum_step3":
+        res["probes"]["enumerated_ternary_step_tape"] = 1
+    elif job.get("mode") == "enum_start":
+        res["probes"]["enumerated_start_tape"] = 1
     if job.get("interior_kept"):
         res["probes"]["interior_kept_residues"] = 1
     if job["opts"].get("start"):
@@ -117,6 +139,7 @@ def run_job(job):
 def extra_evidence(results, tier):
     return {"enumerated": {"systems": NSYS[tier], "step_tape_length": LSTEP[tier],
                            "step_tapes_per_system": 2 ** LSTEP[tier], "attempt_tapes_per_system": 2 ** MATT,
+                           "ternary_step_tapes_per_system": 3 ** L3[tier], "start_tapes_per_system": 2 ** LSTART,
                            "sampled_runs": NSAMPLED[tier]}}
 
 
